@@ -2,12 +2,21 @@
 # Builds vtool-sched: vtool with every map-range of the working tree routed through verifrt.Map.
 set -euo pipefail
 . "$(dirname "$0")/env.sh"
-B="$VERIF_ROOT/.build"
-rm -rf "$B/sched"; mkdir -p "$B/sched"
+B="$VERIF_BUILD"
+H=$(cd "$VERIF_REPO" && find . -name '*.go' -not -name '*_test.go' -not -path './.git/*' -type f -print0 | sort -z | xargs -0 sha256sum | sha256sum | cut -c1-16)
+if [ -f "$B/sched/HASH" ] && [ "$(cat "$B/sched/HASH")" = "$H" ] && [ -x "$B/maprange" ]; then
+  REWRITE=0
+else
+  REWRITE=1
+  rm -rf "$B/sched"; mkdir -p "$B/sched"
+fi
 if [ ! -x "$B/maprange" ] || [ "$VERIF_ROOT/tools/maprange/main.go" -nt "$B/maprange" ]; then
   (cd "$VERIF_ROOT/tools/maprange" && GOFLAGS= go build -o "$B/maprange" main.go)
 fi
-(cd "$VERIF_REPO" && "$B/maprange" "$VERIF_REPO" "$B/sched")
+if [ "$REWRITE" = 1 ]; then
+  (cd "$VERIF_REPO" && "$B/maprange" "$VERIF_REPO" "$B/sched")
+  echo "$H" > "$B/sched/HASH"
+fi
 python3 "$VERIF_ROOT/bin/mkoverlay.py" "$B/overlay-sched.json" --sched
 cd "$VERIF_REPO"
 go build -tags verif -overlay "$B/overlay-sched.json" -o "$B/vtool-sched" ./zz_verif/vt
